@@ -90,6 +90,15 @@ structure BResult where
   divert : Res
   deriving DecidableEq, Repr
 
+/-- `yash_env::builtin::Result::max`: the larger exit status; a divert wins over none, of two the more severe -/
+def BResult.max (a b : BResult) : BResult :=
+  ⟨Nat.max a.exitStatus b.exitStatus,
+    match a.divert, b.divert with
+    | .continue_, other => other
+    | other, .continue_ => other
+    | .break_ l, .break_ r => .break_ (l.max r)
+    | l, _ => l⟩
+
 /-- the divert of `prepare_report_message_and_divert`: an error in a special built-in interrupts the shell -/
 def reportDivert (stack : List Frame) : Res :=
   if (currentBuiltin stack).getD false then .break_ (.interrupt none) else .continue_
